@@ -240,6 +240,14 @@ def larger_allocations(chunk, replay=None):
             a = Allocation([[list(r), dict(al), d] if d else [list(r), dict(al)] for r, al, d in spec])
         except AssertionError:
             continue
+        if fixed_idx and (replay or rng.random() < 0.5):
+            # composition (added after seed C12-7): the allocation is queried and refined BEFORE some of its cells are marked fixed, as
+            # initial_allocation does when it detects the cells of fixed modules; the answers below must follow the flags of now
+            try:
+                a.must_be_refined(t)
+                a.refine(t, 1)
+            except Exception:  # noqa
+                pass
         for i in fixed_idx:
             a.allocations[i].rect.fixed = True
         info = dict(spec=spec, fixed_idx=fixed_idx, t=t, levels=lv)
